@@ -132,6 +132,7 @@ func runC06(w *W) {
 	w.genFillBlock(fillStep(w), judge)
 	w.genBufferFill(judge)
 	w.genCarryThenNothing(judge)
+	w.genDenseSizes(judge)
 	w.genSpaceInDense([]int{1500, 9000}, judge)
 	w.genAlignedPartial(10, 110, 3, judge)
 	w.genAlignedPartial(130, 180, 2, judge)
